@@ -29,6 +29,7 @@ func openAny(t *rapid.T, r *mgrRig, log *[]string, label string, tid datatransfe
 	stage := rapid.IntRange(0, 3).Draw(t, label+".stage")
 	if stage >= 1 {
 		r.toOngoing(c)
+		addVouchers(t, r, c, label)
 	}
 	if stage >= 2 {
 		for i := 1; i <= 3; i++ {
@@ -49,6 +50,22 @@ func openAny(t *rapid.T, r *mgrRig, log *[]string, label string, tid datatransfe
 	c.pubSeen = r.pub.count(c.chid)
 	*log = append(*log, fmt.Sprintf("open %s stage=%d status=%s", c, stage, datatransfer.Statuses[st.Status()]))
 	return c
+}
+
+// addVouchers lets the initiator of c send 0..2 further vouchers (the channel then
+// holds more than one voucher; its opening voucher stays c.voucher).
+func addVouchers(t *rapid.T, r *mgrRig, c *mchan, label string) {
+	n := rapid.IntRange(0, 2).Draw(t, label+".extraVouchers")
+	for i := 0; i < n; i++ {
+		v := datatransfer.TypedVoucher{Type: "T/a", Voucher: basicnode.NewString(fmt.Sprintf("extra-%d-%s", i, rapid.StringMatching("[a-z]{1,3}").Draw(t, label+".extraVoucher")))}
+		if c.selfInit() {
+			_ = r.mgr.SendVoucher(bg(), c.chid, v)
+		} else {
+			m, _ := message.VoucherRequest(c.chid.ID, &v)
+			deliver(r, c.other, m, c.viaTrans)
+		}
+		c.extra = append(c.extra, v)
+	}
 }
 
 type msgSpec struct {
@@ -295,9 +312,15 @@ func TestC05_MgrxRestart(t *testing.T) {
 		sent0, tr0, val0 := r.net.SentLen(), r.tr.Len(), totalValidatorCalls(r)
 		switch action {
 		case "restart-mutated":
-			mutation := rapid.SampledFrom([]string{"none", "sender", "base", "vtype", "vcontent"}).Draw(t, "mutation")
+			mutation := rapid.SampledFrom([]string{"none", "none", "sender", "base", "vtype", "vcontent", "latest-voucher"}).Draw(t, "mutation")
+			if mutation == "latest-voucher" && len(c.extra) == 0 {
+				mutation = "vcontent"
+			}
 			sender, base, v := c.other, c.base, c.voucher
 			switch mutation {
+			case "latest-voucher":
+				// repeats the most recent voucher of the channel instead of the one it was opened with
+				v = c.extra[len(c.extra)-1]
 			case "sender":
 				sender = gen.Peer(5)
 			case "base":
